@@ -106,7 +106,7 @@ Definition run_C04 (c : c04case) : list Z :=
   | CInt h z => [0; z; 1; 1; 1]
   | CFlt h bits tb de => [0; match h with HParam => bits | HLiteral => tb end; 1; zb de; 1]
   | CBool h b => [0; zb b; 1; 1; 1]
-  | CDefault m q => (if default_quotes_paired m q then 1 else 2) :: enc_str (sql_text m q)
+  | CDefault m q => (if default_quotes_paired m q then 1 else 2) :: enc_str (sql_text m q) ++ enc_str (sql_text (neutral_model m) q)
   | CShape m q => [zb (str_eqb (sql_text m q) (sql_text m (neutral_query q)))]
   end.
 
@@ -143,11 +143,15 @@ Definition spec_C04 (c : c04case) (obs : list Z) : bool :=
   | CFlt h bits tb de => Z.eqb bits tb && zlist_eqb obs [0; bits; 1; 1; 1]
   | CBool h b => zlist_eqb obs [0; zb b; 1; 1; 1]
   | CDefault m q =>
-      (* the text of a default value does not change the structure of the statement, and the engine accepts it *)
+      (* the text of a default value does not change the structure of the statement (compared with the statement
+         the implementation compiles when every String default is the neutral "x"), and the engine accepts it *)
       match obs with
       | ok :: t => match dec_str t with
-                   | Some (text, []) => negb (Z.eqb ok 0) && str_eqb (skeleton text false) (skeleton (sql_text (neutral_model m) q) false)
-                   | _ => false
+                   | Some (text, t1) => match dec_str t1 with
+                                        | Some (neutral, []) => negb (Z.eqb ok 0) && str_eqb (skeleton text false) (skeleton neutral false)
+                                        | _ => false
+                                        end
+                   | None => false
                    end
       | [] => false
       end
